@@ -166,8 +166,12 @@ def is_facet_inwards(face, faces):
 
     # create a check point by displacing the facet center in facet orientation direction
     # the displacement is relative to the facet size, so that the result does not depend
-    # on the length unit in which the vertices are given
-    eps = 1e-5 * np.linalg.norm(v1)  # unfortunately this must be quite a 'large' number :(
+    # on the length unit in which the vertices are given. The size is the longest edge:
+    # measured by the first edge alone, a sliver facet that starts with its short edge is
+    # displaced by less than the touch tolerance of the ray test and counts as inwards
+    v3 = face[2] - face[0]
+    size = max(np.linalg.norm(v1), np.linalg.norm(v2), np.linalg.norm(v3))
+    eps = 1e-5 * size  # unfortunately this must be quite a 'large' number :(
     check_point = face.mean(axis=0) + orient * eps
 
     # find out if first point is inwards
